@@ -38,7 +38,7 @@ RULE = (
     "envelopes with missing/duplicate/unknown fields and unknown encodings, bad references; (c) random JSON against a "
     "random type; (d) resolve requests whose parameters are split between args and env, with undeclared extras, "
     "overriding duplicates, and corrupted TIR envelopes (bad hex, wrong encoding, truncated bytes, retired and unknown "
-    "versions - among them names up to 80 characters and a wide character at every position of a 64-character name); a name present in both env and args carries a good env value three times out of four; numbers and texts that are no boolean in the ill-formed stream. "
+    "versions - among them names up to 80 characters and a wide character at every position of a 64-character name); a name present in both env and args carries a good env value three times out of four; numbers and texts that are no boolean and references whose index is no 32-bit number in the ill-formed stream. "
     "Non-trivial = every case; distinct = distinct (JSON, type) or request"
 )
 ASSUMPTIONS = ["the HTTP/JSON-RPC server loop around parse_resolve_request is not exercised; serde_json's parser is trusted"]
